@@ -129,7 +129,7 @@ def make_pair(rng, kind):
     truth, tensors, shapes, params, used = base_case(rng)
     has_ell = any(c02.has(it, ("ell", "anon")) for t in tensors for it in t)
     has_anon = any(c02.has(it, ("anon",)) for t in tensors for it in t)
-    if any(math.prod(s) > 10 ** 6 for s in shapes):
+    if any(s is not None and math.prod(s) > 10 ** 6 for s in shapes):
         return None
     if kind == "unroll":
         if not has_ell:
@@ -188,6 +188,14 @@ def make_pair(rng, kind):
         if not has_anon:
             return None
         long_t = [[anon_to_named(it) for it in t] for t in tensors]
+        with_anon = [i for i, t in enumerate(tensors) if any(c02.has(it, ("anon",)) for it in t)]
+        if len(with_anon) >= 2 and rng.random() < 0.5:
+            # one of the tensors gets an unknown shape: its rank then follows only from the SHARED ellipsis
+            i = rng.choice(with_anon)
+            shapes = [None if j == i else s for j, s in enumerate(shapes)]
+            for n in c02.names_in(tensors[i]):
+                v = truth["val"][n]
+                params[n] = tuple(v) if truth["depth"][n] == 1 else v
         namemap = {anon_name(): FRESH_ELL}
         for i in range(len(truth["anon"])):
             namemap[f"{anon_name()}.{i}"] = f"{FRESH_ELL}.{i}"
@@ -206,6 +214,9 @@ FIXED = [
     ("num", "(a 2)... c", {}, [[4, 6, 5]], "(a n0_)... c", {"n0_": 2}, {}),
     ("broadcast", "(a b)..., a... b...", {"b": 2}, [[4, 6], None], "(a b)..., a... b...", {"b": (2, 2)}, {}),
     ("anon", "..., ... c", {}, [[2, 3], [2, 3, 4]], "z..., z... c", {}, None),
+    # "used for all occurrences": the second tensor's rank is known only because the ellipsis is shared
+    ("anon", "..., ... c", {"c": 4}, [[2, 3], None], "z..., z... c", {"c": 4}, None),
+    ("anon", "b ..., (...) b", {}, [[5, 2, 3], None], "b z..., (z...) b", {}, None),
 ]
 
 
@@ -346,7 +357,7 @@ def model_axes(sol, namemap):
 
 def compare_real(kind, p, rs, rl, api):
     """-> None or a description of the difference between the two real calls"""
-    if kind in ("unroll", "broadcast") and not rs["ok"] and rl["ok"] and rs.get("exc") in ("RankError", "AxisSizeError"):
+    if kind in ("unroll", "broadcast") and not rs["ok"] and rl["ok"] and rs.get("exc") == "RankError":
         # the long form states the repetition count (as many copies / as long a tuple), the short form leaves it to the solver:
         # where einx cannot determine the count from the short form there is nothing to compare (theorem: Sols(long) = Sols(short) at THAT count)
         return None
